@@ -368,4 +368,131 @@ def norm : Upd → List Upd
 /-- one received call, normalised -/
 def normD (d : (Nat × Op) × Upd) : List ((Nat × Op) × Upd) := (norm d.2).map (fun e => (d.1, e))
 
+/-! ### kind.rs: raw mask bits, as `add_route` sees them -/
+
+/-- `MetricKindMask` is a `u8` bit set (COUNTER = 1, GAUGE = 2, HISTOGRAM = 4, ALL = 7, NONE = 0; `|` is the bitwise
+    or).  `add_route` `match`es the mask against the four named constants and `panic!`s in the `_` arm: `none` here.
+    A composite mask such as COUNTER | GAUGE (3) is therefore NOT "both tries" — it is refused. -/
+def Mask.ofBits : Nat → Option Mask
+  | 1 => some .counter
+  | 2 => some .gauge
+  | 4 => some .histogram
+  | 7 => some .all
+  | _ => none
+
+/-- the bits of the four accepted masks -/
+def Mask.bits : Mask → Nat
+  | .counter => 1
+  | .gauge => 2
+  | .histogram => 4
+  | .all => 7
+
+/-! ### several client threads on ONE recorder tree
+
+No layer has a mutable field (`src_layers_stateless`), every `Recorder` method takes `&self`, and the layers are
+`Sync`: client threads share the tree and the handles.  The step machine below has the granularity of ONE call
+into a base recorder (the harness's logging doubles are the yield points): a granted thread makes the call it is
+parked in front of and runs on — finishing the operation, starting the next ones — until it stands in front of its
+next call into a base recorder. -/
+
+/-- what a base recorder (or a handle made by one) receives -/
+inductive Ev
+  | got (base : Nat) (op : Op)
+  | upd (leaf : Nat × Op) (u : Upd)
+  deriving Repr, Inhabited
+
+/-- one call of a client thread: a describe / register on the top recorder (the handle of a register becomes the
+    thread's next OWN handle), or an update through a handle — one of the SHARED handles (registered before the
+    threads started; every thread holds a clone) or one of its own -/
+inductive Call
+  | op (o : Op)
+  | upd (sharedH : Bool) (i : Nat) (u : Upd)
+  deriving Repr, Inhabited
+
+/-- the calls into base recorders one client call causes, in call order, and the thread's own handles afterwards -/
+def evalCall (tree : Rec) (shared own : List Handle) : Call → List Ev × List Handle
+  | .op o => ((tree.deliver o).map (fun d => Ev.got d.1 d.2), if o.reg then own ++ [tree.handle o] else own)
+  | .upd sh i u =>
+    match (if sh then shared else own)[i]? with
+    | some h => ((h.apply u).map (fun d => Ev.upd d.1 d.2), own)
+    | none => ([], own)
+
+/-- a thread running ALONE: everything its remaining calls cause, in order -/
+def seqFrom (tree : Rec) (shared : List Handle) : List Handle → List Call → List Ev
+  | _, [] => []
+  | own, c :: cs => (evalCall tree shared own c).1 ++ seqFrom tree shared (evalCall tree shared own c).2 cs
+
+/-- a client thread: `pending` = the calls into base recorders it still has to make for the client call in flight
+    (it is parked in front of the first), `todo` = the client calls after that -/
+structure Thread where
+  started : Bool := false
+  pending : List Ev := []
+  own : List Handle := []
+  todo : List Call := []
+  deriving Repr, Inhabited
+
+/-- run on until the thread stands in front of a call into a base recorder (client calls that reach nobody —
+    filtered, inert handle, empty fan-out — are passed without stopping), or has nothing left to do -/
+def advance (tree : Rec) (shared : List Handle) : List Ev → List Handle → List Call → Thread
+  | e :: p, own, todo => { started := true, pending := e :: p, own := own, todo := todo }
+  | [], own, [] => { started := true, pending := [], own := own, todo := [] }
+  | [], own, c :: cs => advance tree shared (evalCall tree shared own c).1 (evalCall tree shared own c).2 cs
+
+/-- the whole system: the shared tree and handles (never written), the threads, and the global log of calls
+    received by base recorders, tagged with the calling thread, in real-time order -/
+structure Sys where
+  tree : Rec
+  shared : List Handle
+  threads : Nat → Thread
+  log : List (Nat × Ev)
+
+/-- thread `t` is granted: its first grant only brings it in front of its first call; every later grant makes the
+    call it is parked in front of and runs on to the next one -/
+def Sys.step (s : Sys) (t : Nat) : Sys :=
+  if (s.threads t).started = false then
+    { s with threads := fun i =>
+        if i = t then advance s.tree s.shared (s.threads t).pending (s.threads t).own (s.threads t).todo
+        else s.threads i }
+  else
+    match (s.threads t).pending with
+    | [] => s
+    | e :: p =>
+      { s with log := s.log ++ [(t, e)],
+               threads := fun i =>
+                 if i = t then advance s.tree s.shared p (s.threads t).own (s.threads t).todo else s.threads i }
+
+/-- a schedule = the list of granted thread ids -/
+def Sys.run (s : Sys) (sched : List Nat) : Sys := sched.foldl Sys.step s
+
+/-- the start: thread `t` is to make the client calls `scripts t` -/
+def Sys.init (tree : Rec) (shared : List Handle) (scripts : Nat → List Call) : Sys :=
+  { tree := tree, shared := shared, threads := fun t => { todo := scripts t }, log := [] }
+
+/-- what thread `t` caused, in order -/
+def proj (log : List (Nat × Ev)) (t : Nat) : List Ev := (log.filter (fun x => x.1 == t)).map (·.2)
+
+/-- what a thread will still cause if it runs to its end -/
+def Thread.rest (tree : Rec) (shared : List Handle) (th : Thread) : List Ev :=
+  th.pending ++ seqFrom tree shared th.own th.todo
+
+/-- a thread has nothing left to do -/
+def Thread.finished (th : Thread) : Bool := th.started && th.pending.isEmpty && th.todo.isEmpty
+
+/-! ### recorder lifetime: a client that may drop the tree while keeping handles -/
+
+/-- a client: the recorder tree (while it lives) and the handles obtained from it -/
+structure Client where
+  tree : Option Rec
+  handles : List Handle
+  deriving Repr, Inhabited
+
+/-- `drop(recorder)`: the handles are `Arc`s of their own and live on -/
+def Client.dropTree (c : Client) : Client := { c with tree := none }
+
+/-- calls on handle number `i` -/
+def Client.update (c : Client) (i : Nat) (us : List Upd) : List ((Nat × Op) × Upd) :=
+  match c.handles[i]? with
+  | some h => h.applySeq us
+  | none => []
+
 end MetricsVerif.Layers
